@@ -119,8 +119,12 @@ impl Sharder {
 
     /// Assuming the node is a replica for a given token, returns the shard that owns this token.
     pub fn shard_of(&self, token: Token) -> Shard {
-        let mut biased_token = (token.value as u64).wrapping_add(1u64 << 63);
-        biased_token <<= self.msb_ignore;
+        let biased_token = (token.value as u64).wrapping_add(1u64 << 63);
+        // `msb_ignore` is supplied by the server (or by the caller of `Sharder::new`):
+        // ignoring 64 or more bits leaves no bit of the token, and must not overflow the shift.
+        let biased_token = biased_token
+            .checked_shl(self.msb_ignore as u32)
+            .unwrap_or(0);
         (((biased_token as u128) * (self.nr_shards.get() as u128)) >> 64) as Shard
     }
 
